@@ -22,6 +22,7 @@ REQUIRED_COUNTERS = ["c13_beam_calls", "c13_topk_audits", "c13_beams_checked", "
 MIN_NONTRIVIAL = {"quick": 2500, "thorough": 30000}
 WORKERS = {"quick": 14, "thorough": 16}
 BUDGET_S = {"quick": 500, "thorough": 3000}
+THOROUGH_ROUNDS = 4
 ENVS = ["tsp", "cvrp", "cvrptw", "sdvrp", "op", "pctsp", "spctsp", "pdp", "mtvrp"]
 
 
